@@ -1071,7 +1071,7 @@ func (r *rsess) firstStartCrash(what string, m map[string][]byte) {
 func raftSessions(run *vh.Run) {
 	raftv2.ConfSnapFrequency, raftv2.ConfSnapshotCatchUpEntriesN = snapEvery, snapEvery
 	s := &session{run: run, rng: run.Rng, dir: filepath.Join(run.Out, "raftnode")}
-	n := run.Pick(90, 1500)
+	n := run.Pick(45, 500)
 	for i := 0; i < n; i++ {
 		r := &rsess{session: s, firstOfRun: i == 0}
 		s.cuts = true
